@@ -12,7 +12,7 @@ THEOREMS = ['byte_mask_encoding_irrelevant', 'negative_index_encoding_irrelevant
             'layout_independent_num', 'layout_independent_local_index', 'layout_independent_pad',
             'layout_independent_combinations', 'layout_independent_carry', 'numpy_shape_is_regular_nesting',
             'layout_independent_reduce_partial', 'layout_independent_sort', 'layout_independent_fillna',
-            'layout_independent_field', 'layout_independent_flatten_partial']
+            'layout_independent_field', 'layout_independent_flatten_partial', 'layout_independent_getitem']
 RULE = ('value-first: one (type, values) pair encoded twice (random: ListOffset/ListArray/Regular x 32/U32/64-bit x offset '
         'origin x gaps/shuffles x IndexedArray indirection x five option encodings; canonical) x one of 12 operations with '
         'random arguments; non-trivial = the two encodings differ textually and the operation succeeded on both; '
